@@ -1139,5 +1139,7 @@ TECHNIQUE = ("Lean 4 theorems by induction on the document grammar about the lex
 LEVEL_TEXT = ("Kernel-checked for every document of the grammar (any nesting depth, any branch length, empty alternatives anywhere, colour markers and comments "
               "at the permitted token boundaries): the model of the parser returns exactly one row per point in document order, typed by the label, whose "
               "parent is the preceding point of its branch or the last point before the enclosing split; a token stream that ends early is an error.")
-LEVEL_NOTE = ("Trusted: Lean kernel; hand-written lexer/parser model tied by correspondence; CPython float(); AST materialisation + pre-order walk replaced by "
-              "creation-order rows in the model (covered by the correspondence, not by a theorem).")
+LEVEL_NOTE = ("Trusted: Lean kernel; the lexer / parser model is no longer tied by correspondence only: the character-level Lexer, the token-level Parser and "
+              "from_ast / walk_ast are translated from the source on every run and PROVED equal to the model for every text (C15.generated_text_convert_eq_model_all); "
+              "trusted remain CPython float() and the pinned RE_FLOAT pattern (parameters), the hand-written driver composition of the stages (how from_stream pulls tokens "
+              "on demand), and the interpreter's recursion limit (known finding D33: nesting beyond half the limit raises).")
